@@ -20,6 +20,7 @@ import (
 	"sort"
 	"strings"
 	"sync"
+	"sync/atomic"
 	"time"
 
 	"github.com/sheerbytes/sheerbytes/internal/quictransport"
@@ -407,9 +408,39 @@ func Run(cfg Config, srcRoot, outDir string) (Outcome, error) {
 	}()
 	all := make(chan struct{})
 	go func() { wg.Wait(); close(all) }()
-	select {
-	case <-all:
-	case <-time.After(wd):
+	// progress-based watchdog: the transfer is declared hung only when neither a byte moved on the
+	// simulated transport nor a hook point was passed for the whole window (a wall-clock limit alone
+	// would mistake a slow, loaded machine for a deadlock); 8 windows bound a transfer that keeps
+	// moving without ever finishing
+	progress := func() int64 {
+		n := HookTicks.Load()
+		for _, p := range cs.pairs {
+			for _, sb := range p.StreamBytes() {
+				n += int64(sb[0]) + int64(sb[1])
+			}
+		}
+		return n
+	}
+	hung := false
+	last, lastChange := progress(), time.Now()
+	tick := time.NewTicker(100 * time.Millisecond)
+watch:
+	for {
+		select {
+		case <-all:
+			break watch
+		case <-tick.C:
+			if p := progress(); p != last {
+				last, lastChange = p, time.Now()
+			}
+			if time.Since(lastChange) > wd || time.Since(t0) > 8*wd {
+				hung = true
+				break watch
+			}
+		}
+	}
+	tick.Stop()
+	if hung {
 		out.Hung = true
 		out.HangWhere = classifyGoroutines()
 		select {
@@ -455,6 +486,10 @@ func Run(cfg Config, srcRoot, outDir string) (Outcome, error) {
 	out.WallMs = time.Since(t0).Milliseconds()
 	return out, nil
 }
+
+// HookTicks counts verifhook events (incremented by the drivers' hook handler); part of the
+// watchdog's notion of progress.
+var HookTicks atomic.Int64
 
 // classifyGoroutines names the blocking sites of the transfer goroutines in a dump.
 func classifyGoroutines() []string {
